@@ -69,7 +69,9 @@ ClauseShape(c) == IF c.k = "A" THEN c.b = "S"
                   ELSE c.s = "\\" /\ c.r.k = "A" /\ c.r.b = "NP" /\ ClauseShape(c.l)
 (* the label the statement requires, "" when it is silent *)
 RequiredUnaryLabel(x) ==
-  IF ~ClauseShape(x) THEN ""
+  \* an adverbially used noun (the shipped rule NP[case=nc,mod=adv,fin=f] => S/S) misses no argument: ADV0
+  IF x.k = "A" /\ x.b = "NP" /\ ModOf(x) = "adv" THEN "ADV0"
+  ELSE IF ~ClauseShape(x) THEN ""
   ELSE IF ModOf(x) = "adn" THEN (CASE NArgs(x) = 0 -> "ADNext" [] NArgs(x) = 1 -> "ADNint" [] OTHER -> "")
   ELSE IF ModOf(x) = "adv" THEN (CASE NArgs(x) = 0 -> "ADV0" [] NArgs(x) = 1 -> "ADV1" [] NArgs(x) = 2 -> "ADV2" [] OTHER -> "")
   ELSE ""
